@@ -200,6 +200,14 @@ def setup_worker():
 
 
 # ------------------------------------------------------------------------------------------------
+def _in_repeated_hour(ts, tz):
+    """is the instant inside a local hour that occurs twice (DST fall-back)?  (same wall-clock time one hour earlier or later)"""
+    t = pd.Timestamp(ts)
+    t = t.tz_convert(tz)
+    w = t.tz_localize(None)
+    return any((t + pd.Timedelta(hours=h)).tz_convert(tz).tz_localize(None) == w for h in (-1, 1))
+
+
 def _series(rng):
     kind = str(rng.choice(["h", "D", "bill", "bill2", "15min"], p=[0.25, 0.3, 0.25, 0.1, 0.1]))
     tz = str(rng.choice(["UTC", "America/Chicago", "Australia/Sydney", "Asia/Kolkata", "Europe/London"]))
@@ -320,6 +328,8 @@ def run_case(spec):
             nrows = 0
             sub = "overshoot" if opts["allow_billing_period_overshoot"] else "no-overshoot"
             sub += ":max_days=None" if md is None else ""
+            if isinstance(e, KeyError) and "non-monotonic index" in str(e) and any(_in_repeated_hour(x, data.index.tz) for x in (cut, other) if x is not None):
+                sub = "limit-inside-the-repeated-hour-of-a-dst-fall-back"
             VIOL.append(dict(mech="%s:unexpected-%s:%s" % ("baseline" if base else "reporting", type(e).__name__, sub),
                              what="raised %s: %s instead of returning a selection or the dedicated error" % (type(e).__name__, str(e)[:120])))
         for v in VIOL:
